@@ -158,6 +158,27 @@ func (t *textFlow) walkLookup(lk *ssa.Lookup, d int) {
 			if mt2, ok := mu.Map.Type().Underlying().(*types.Map); !ok || mt2.Elem().String() != "string" || mt2.Key().String() != "string" {
 				return
 			}
+			// the per-field reasons of a validation error (verr.Invalid["body"] = "too long: ...") are keyed like the
+			// updates but are not updates: what is stored there is a message about the field, never its text
+			if base, _, isField := fieldLoad(mu.Map); isField && (isErrorImpl(base.Type()) || strings.HasSuffix(namedTypeName(base.Type()), "Error")) {
+				return
+			}
+			if mk, isMk := resolve(mu.Map).(*ssa.MakeMap); isMk && mk.Referrers() != nil {
+				// ... also while it is still a local on its way into the error (invalid := map...; &ValidationError{Invalid: invalid})
+				intoError := false
+				users := append([]ssa.Instruction{}, *mk.Referrers()...)
+				users = append(users, handleUsers(mk)...)
+				for _, u := range users {
+					if st, ok := u.(*ssa.Store); ok {
+						if fa, ok := st.Addr.(*ssa.FieldAddr); ok && (isErrorImpl(fa.X.Type()) || strings.HasSuffix(namedTypeName(fa.X.Type()), "Error")) {
+							intoError = true
+						}
+					}
+				}
+				if intoError {
+					return
+				}
+			}
 			t.walk(mu.Value, d+1)
 		})
 	}
@@ -492,7 +513,7 @@ func rulePlanKeys(c *Ctx) {
 	// what counts as a blank title/body is what replay's legacy migration and the set builder mean by it:
 	// strings.TrimSpace(x) == "" (Unicode white space). A validator that decides blankness some other way (byte by byte,
 	// ASCII only) lets a title through that replay then treats as missing and rewrites
-	if v := c.Fn("(*ergo.PlanInput).Validate"); v != nil {
+	if v := c.FnImpl("(*ergo.PlanInput).Validate"); v != nil {
 		nTrim := 0
 		for g := range c.F.TransitiveCallees(v) {
 			if !c.InModule(g) || g.Blocks == nil {
@@ -532,7 +553,7 @@ func rulePlanKeys(c *Ctx) {
 			"the plan validator never compares strings.TrimSpace(x) with \"\": blankness is decided some other way than replay decides it, so a title made of non-ASCII white space is accepted, recorded, and replaced by the legacy-title migration on every read")
 	}
 	var fns []*ssa.Function
-	if v := c.Fn("(*ergo.PlanInput).Validate"); v != nil {
+	if v := c.FnImpl("(*ergo.PlanInput).Validate"); v != nil {
 		fns = append(fns, v)
 	}
 	if rp := c.ErgoFn("RunPlan"); rp != nil {
